@@ -243,7 +243,7 @@ func (w *websocketPeer) Close() {
 	// Tell sendHandler to exit and discard any queued messages. Do not close
 	// wr channel in case there are incoming messages during close.
 	w.cancelSender()
-	<-w.writerDone
+	w.waitWriterDone()
 	close(w.wr)
 	for range w.wr {
 	}
@@ -260,6 +260,20 @@ func (w *websocketPeer) Close() {
 
 	// Wait for the recvHandler goroutine to exit.
 	<-w.recvDone
+}
+
+// waitWriterDone waits for the send handler to exit. The handler may be blocked
+// writing to a client that has stopped reading, in which case it is not waited
+// for longer than ctrlTimeout: closing the connection makes its write fail.
+func (w *websocketPeer) waitWriterDone() {
+	timer := time.NewTimer(ctrlTimeout)
+	defer timer.Stop()
+	select {
+	case <-w.writerDone:
+	case <-timer.C:
+		_ = w.conn.Close()
+		<-w.writerDone
+	}
 }
 
 // sendHandler pulls messages from the write channel, and pushes them to the
